@@ -47,8 +47,8 @@ CHECKS = {
             "well-formedness are concrete facts evaluated in the same check.", "1 C18"),
     "C19": ("The real remote loader against an in-memory file system with a solver-driven fault oracle: symbolic "
             "retry budget and failure pattern, payload class tied to the checksum comparison, kill before any step "
-            "(frozen file system), all interleavings of concurrent loaders at the shared cache path; replay on a real "
-            "temporary directory.", "1 C19"),
+            "(frozen file system), all interleavings of concurrent loaders at the shared paths (also with one loader killed before a symbolic "
+            "one of its own calls), refresh of a stale / damaged entry; replay on a real temporary directory.", "1 C19"),
     "C20": ("Every invalid-argument class with its invalid region symbolic (or a list of wrong names) on arbitrary "
             "fresh/tracked/reshaped states: ValueError and the six state arrays are the same objects with the same "
             "terms.", "1 C20"),
